@@ -234,6 +234,11 @@ func w4Gen(rng *rand.Rand, tier string) (*w4Body, simrt.Sched) {
 		case 3:
 			f.Kind = "status"
 			f.Status = []int{500, 503, 404, 301, 199, 300, 100}[rng.Intn(7)]
+			if !jwksLikely && rng.Intn(2) == 0 {
+				// the server turns the request away by sending it to its login page
+				f.Kind = "redirect"
+				f.Status = []int{301, 302, 303, 307, 308}[rng.Intn(5)]
+			}
 		case 4:
 			f.LatencyMs = b.ReadTimeoutMs - 100
 		default:
@@ -656,7 +661,14 @@ func w4Check(b *w4Body, calls []*w4Call, fetches []w4Fetch) (vs []simrt.Violatio
 					okDelivered = true
 				}
 			}
-			if len(c.posts) > 1 {
+			// (a POST that the server itself asked for, by answering the previous one 307 or 308, is not a repetition)
+			asked := 0
+			for i := 1; i < len(c.posts); i++ {
+				if s := c.posts[i-1].status; c.posts[i-1].delivered && (s == 307 || s == 308) {
+					asked++
+				}
+			}
+			if len(c.posts)-asked > 1 {
 				vs = append(vs, simrt.Violation{Property: "C02", Clause: "post-repeated", Detail: fmt.Sprintf("%s: %d POSTs for one request", what, len(c.posts))})
 			}
 			if c.admitted && !okDelivered {
